@@ -109,7 +109,8 @@ def gen_setget(rng, i):
             good, bad = VALIDATED[key]
             ops.append(("set", key, rng.choice(good if rng.random() < 0.55 else bad)))
         elif r < 0.7:
-            ops.append(("set", rng.choice(["greeting", "custom_key", "nested_like.key", "version"]), rng.choice(FREE_VALUES)))
+            ops.append(("set", rng.choice(["greeting", "custom_key", "nested_like.key", "version", "log-level", "max-retries", "output-format"]),
+                        rng.choice(FREE_VALUES + ["INVALID", "-"])))
         elif r < 0.93:
             ops.append(("get", rng.choice(sorted(VALIDATED) + ["greeting", "custom_key", "version", "missing_key"])))
         else:
@@ -134,8 +135,13 @@ def check_setget(ctx, case, events):
         op = ev["op"]
         rep = {"history": case["id"], "step": k, "argv": ev["argv"], "ops_so_far": [e["op"] for e in events[:k + 1]]}
         files = {case["cfgname"] + ".initial": case["initial"] or ""}
+        if "Error loading configuration" in ev["err"] and ev["exit"] != 0:
+            accepted = [e["op"] for e in events[:k] if e["op"][0] == "set" and e["exit"] == 0]
+            ctx.discrepancy("config-unloadable-after-accepted-set", "%s step %d: the file written by accepted commands no longer loads (%s); last accepted sets: %r" % (
+                case["id"], k, ev["err"].strip()[-120:], accepted[-3:]), rep, files)
+            return
         if op[0] == "set":
-            key, raw = op[1], op[2]
+            key, raw = op[1].replace("-", "_"), op[2]
             if raw.startswith("-") and ev["exit"] == 2:
                 ctx.count("set_usage_error")
                 if ev["changed"]:
@@ -168,10 +174,14 @@ def check_setget(ctx, case, events):
                 elif kk not in ev["loaded"]:
                     ctx.discrepancy("other-key-lost", "%s step %d: key %s=%r disappeared from the file" % (case["id"], k, kk, vv), rep, files)
         elif op[0] == "get":
-            key = op[1]
+            key = op[1] if op[1] in written else op[1].replace("-", "_")
             ctx.count("get_ops")
             if ev["changed"]:
                 ctx.discrepancy("get-modified-file", "%s step %d: config get changed the file" % (case["id"], k), rep, files)
+            if key in written and ev["exit"] != 0 and ("rror" in ev["err"] or "nvalid" in ev["err"]):
+                ctx.discrepancy("config-unloadable-after-accepted-set", "%s step %d: `config get %s` fails (exit %s: %s) although every earlier set was accepted: %r" % (
+                    case["id"], k, key, ev["exit"], ev["err"][-120:], [e["op"] for e in events[:k] if e["op"][0] == "set" and e["exit"] == 0][-3:]), rep, files)
+                continue
             if key in written:
                 want = str(written[key])
                 ctx.nontrivial(["get", key, want])
@@ -204,7 +214,7 @@ SECTION_VALUES = {
     "unwrap-abuse": lambda r: {"enabled": True, "allow_expect": r.random() < 0.5},
     "lazy-ignores": lambda r: {"enabled": r.random() < 0.5},
 }
-DECODE = {"nesting": ("nesting", "max_nesting_depth"), "srp": ("srp", "max_methods"), "dry": ("dry", "min_duplicate_lines"), "magic-numbers": ("magic-numbers", "max_small_integer"),
+DECODE = {"file-placement": ("file-placement", "global_deny"), "nesting": ("nesting", "max_nesting_depth"), "srp": ("srp", "max_methods"), "dry": ("dry", "min_duplicate_lines"), "magic-numbers": ("magic-numbers", "max_small_integer"),
           "stateless-class": ("stateless-class", "min_methods"), "method-property": ("method-property", "max_body_statements")}
 
 
@@ -214,6 +224,9 @@ def gen_existing(rng, i):
     for s in secs:
         key = s.replace("-", "_") if rng.random() < 0.4 else s
         doc[key] = SECTION_VALUES[s](rng)
+    if rng.random() < 0.25 and "file-placement" not in doc and "file_placement" not in doc:
+        # legacy layout accepted by file-placement: rules at the top level, no 'file-placement:' wrapper
+        doc["global_deny"] = [{"pattern": ".*\\.tmp$", "reason": "no temp files (legacy layout)"}]
     if rng.random() < 0.4:
         doc["ignore"] = ["vendor/", "*.gen.py"]
     if rng.random() < 0.3:
@@ -265,7 +278,7 @@ def merge_history(case):
         steps.append({"argv": argv, "exit": r.exit, "changed": before != after, "loaded": loaded if isinstance(loaded, dict) else None, "err": err, "out": r.out[-200:], "stderr": r.err[-200:],
                       "after_text": after.decode("utf-8", "replace") if after is not None and len(after) < 40000 else None})
     # in effect: decode the user's thresholds on the staircase probe with the merged file
-    probe = staircase.files()
+    probe = dict(staircase.files(), **{"st/scratch.tmp": "temporary\n", "st/keep.txt": "kept\n"})
     runner.write_tree(d, probe)
     decoded = {}
     for sec, (cmdsec, key) in DECODE.items():
@@ -361,7 +374,7 @@ def run(ctx):
                 ctx.discrepancy("not-idempotent:%s" % case["style"], "%s step %d: running init-config again changed the file" % (case["id"], k), rep, fs)
         # in effect
         for sec, (cmdsec, key) in DECODE.items():
-            user_has = any(s.replace("_", "-") == sec for s in case["doc"])
+            user_has = any(s.replace("_", "-") == sec for s in case["doc"]) or (sec == "file-placement" and "global_deny" in case["doc"])
             if not user_has:
                 continue
             ctx.count("in_effect_checks")
